@@ -13,7 +13,7 @@ import (
 	"verif/harness/lib/tsdemux"
 )
 
-const ruleText = "frame sequences (AAC frames; H.264 NAL units of type 1, 5, 6 and in-band 7, 8, 9, legal Annex-B content with frequent zero runs and emulation-prevention bytes) with parameter sets from ipchub's own tests go through H264Packetizer/AacPacketizer->Writer and through Muxer; output judged by an independent ISO 13818-1 demultiplexer + Annex-B splitter + ADTS parser. " +
+const ruleText = "frame sequences (AAC frames; H.264 NAL units of every nal_unit_type 0..31 - mostly 1, 5, 6 and in-band 7, 8, 9 -, legal Annex-B content with frequent zero runs and emulation-prevention bytes) with parameter sets from ipchub's own tests go through H264Packetizer/AacPacketizer->Writer and through Muxer; output judged by an independent ISO 13818-1 demultiplexer + Annex-B splitter + ADTS parser. " +
 	"Sweeps enumerate every payload size 1..592 for every header shape, every size across the PES_packet_length 65535 boundary, and for key frames every SPS+PPS total length 8..400 (synthetic sets, three splits) x 7 payload sizes; timestamp sweep = all pairs of 33-bit boundary values; random part = rapid sequences of up to 20 (thorough 40) frames. " +
 	"A case is non-trivial when at least one PES ends in a short last packet, i.e. takes an adaptation-field stuffing path (creating an adaptation field of 1, 2 or >=3 bytes, or growing the one that already carries the PCR)."
 
@@ -98,6 +98,10 @@ var shapes = []shape{
 	{"inband-sps/PTS", false, 0x67, false},
 	{"inband-pps/PTS+DTS", false, 0x68, true},
 	{"inband-aud/PTS", false, 0x09, false},
+	{"type-2-partition-A/PTS", false, 0x42, false},
+	{"type-12-filler/PTS+DTS", false, 0x0c, true},
+	{"type-20-slice-extension/PTS", false, 0x74, false},
+	{"type-0-unspecified/PTS", false, 0x20, false},
 }
 
 func (s shape) frame(size int, seed uint32, pts uint64) frameSpec {
@@ -146,7 +150,7 @@ func (sc *sweepCounter) flush() {
 // TestSizeSweep: every payload size 1..3*184+40 for every header shape, both paths.
 func TestSizeSweep(t *testing.T) {
 	evid.Rule(ruleText)
-	evid.Assume("AAC access units are at most 6144 bytes (what 13-bit aac_frame_length is meant for); NAL units are legal Annex-B content (emulation prevention applied, no trailing zero byte); H.264 NAL types other than 1, 5, 6, 7, 8, 9 are not generated")
+	evid.Assume("AAC access units are at most 6144 bytes (what 13-bit aac_frame_length is meant for); NAL units are legal Annex-B content (emulation prevention applied, no trailing zero byte); a NAL unit consisting of the single byte 0x00 is not generated")
 	maxSize := 3*184 + 40
 	if evid.Thorough() {
 		maxSize = 12*184 + 40
@@ -253,6 +257,58 @@ func TestParamSetLengthSweep(t *testing.T) {
 						if total == 300 && split == 1 && pi == 2 {
 							evid.Sample("paramset-length-sweep:"+sh.name, c)
 						}
+					}
+				}
+			}
+		})
+	}
+	t.Cleanup(sc.flush)
+}
+
+// TestNalTypeSweep: every value of the NAL header byte's type and nal_ref_idc
+// fields x payload sizes of every class x PTS-only / PTS+DTS, on the direct
+// route (Writer and Muxer) and through the HLS segment generator.
+func TestNalTypeSweep(t *testing.T) {
+	evid.Rule(ruleText)
+	evid.Rule("NAL types: 1, 5, 6 must come out as AUD (+SPS, PPS on IDR) + source; 2, 3, 4, 19, 20, 21 (coded picture data) must come out; every other type may be carried or omitted, uniformly per type; every unit that comes out is the last unit of its PES, byte-equal, behind a 3- or 4-byte start code, with nothing in front of it but an access unit delimiter and the stream's SPS / PPS")
+	sizes := []int{1, 2, 3, 40, 161, 170, 171, 184, 185, 400, 1200}
+	shard, shards := evid.Shard()
+	var sc sweepCounter
+	for typ := 0; typ < 32; typ++ {
+		typ := typ
+		if typ%shards != shard {
+			continue
+		}
+		t.Run(fmt.Sprintf("type-%d", typ), func(t *testing.T) {
+			t.Parallel()
+			for nri := 0; nri < 4; nri++ {
+				hdr := byte(nri<<5 | typ)
+				if hdr == 0 || typ == 5 && nri == 0 {
+					continue
+				}
+				for si, size := range sizes {
+					for _, dts := range []bool{false, true} {
+						sh := shape{hdr: hdr, dts: dts}
+						sps, pps := paramSet(typ + si)
+						pts := uint64(700000 + typ*40000 + si*3003)
+						c := &caseSpec{SPS: sps, PPS: pps, ASC: ascPool[(typ+si)%len(ascPool)], Muxer: (si+nri)%2 == 1}
+						c.Frames = append([]frameSpec{sh.frame(size, uint32(typ*97+si*7+nri), pts)}, tail(pts)...)
+						sc.add(check(t, c, "nal-type-sweep"))
+						if nri != 1 || dts {
+							continue
+						}
+						// the same unit inside an HLS timeline: key frame, the unit, audio, closing frames
+						h := &caseSpec{HLS: true, ExactAudio: true, SPS: sps, PPS: pps, ASC: "1190", Muxer: si%3 == 2}
+						h.Frames = []frameSpec{
+							{Hdr: 0x65, Size: 300, Seed: 1, PTS: 45000, DTS: 45000},
+							{Audio: true, Size: 50 + si, Seed: 2, PTS: 45000, DTS: 45000},
+							sh.frame(size, uint32(typ*97+si*7+nri), 48600),
+							{Audio: true, Size: 20 + si, Seed: 3, PTS: 46920, DTS: 46920},
+							{Hdr: 0x41, Size: 90, Seed: 4, PTS: 52200, DTS: 52200},
+						}
+						x := uint32(typ*131+si) | 1
+						h.Frames = append(h.Frames, hlsEnding(h.Frames, func() uint32 { x ^= x << 13; x ^= x >> 17; x ^= x << 5; return x })...)
+						checkHLS(t, h, "nal-type-sweep-hls")
 					}
 				}
 			}
@@ -453,6 +509,12 @@ func genAudioSize(t *rapid.T) int {
 	}
 }
 
+// otherNalTypes: every nal_unit_type that is neither 1, 5, 6 nor 7, 8, 9 - data
+// partitions 2-4, end of sequence / stream 10, 11, filler 12, 13-15, reserved
+// 16-18, 19 (auxiliary slice), 20, 21 (slice extensions), reserved 22, 23 - and,
+// as a small class at the end, the unspecified 0 and 24-31.
+var otherNalTypes = []byte{2, 20, 12, 3, 10, 4, 19, 14, 11, 21, 13, 15, 16, 17, 18, 22, 23, 0, 24, 28, 31, 25, 26, 27, 29, 30}
+
 func genCase(t *rapid.T, maxFrames int, big bool, inbandHeavy bool) *caseSpec {
 	c := &caseSpec{}
 	switch rapid.IntRange(0, 19).Draw(t, "paramsets") {
@@ -489,17 +551,23 @@ func genCase(t *rapid.T, maxFrames int, big bool, inbandHeavy bool) *caseSpec {
 			f.Size = genAudioSize(t)
 			f.DTS = f.PTS
 		} else {
-			types := []string{"1", "5", "1", "5", "6", "1", "7", "5", "8", "9"}
+			types := []string{"1", "5", "1", "other", "5", "6", "1", "7", "5", "8", "9", "other"}
 			if inbandHeavy {
-				types = []string{"5", "7", "1", "8", "9", "5", "6", "7"}
+				types = []string{"5", "7", "other", "1", "8", "9", "5", "6", "7", "other"}
 			}
-			typ := pick(t, "nal-type", types...)[0] - '0'
+			var typ byte
+			switch k := pick(t, "nal-type", types...); k {
+			case "other": // every other value of the 5-bit nal_unit_type
+				typ = rapid.SampledFrom(otherNalTypes).Draw(t, "other-nal-type")
+			default:
+				typ = k[0] - '0'
+			}
 			nri := byte(rapid.IntRange(0, 3).Draw(t, "nri"))
-			if typ == 5 && nri == 0 {
-				nri = 3 // 7.4.1: nal_ref_idc shall not be 0 for IDR slices
+			if (typ == 5 || typ == 0) && nri == 0 {
+				nri = 3 // 7.4.1: nal_ref_idc shall not be 0 for IDR slices; a unit consisting of the byte 0x00 alone cannot be framed
 			}
 			f.Hdr = nri<<5 | typ
-			if typ >= 6 {
+			if typ >= 6 && typ <= 9 {
 				f.Size = rapid.IntRange(1, 300).Draw(t, "ps-size")
 			} else {
 				f.Size = genVideoSize(t, big)
